@@ -148,7 +148,7 @@ ext("C04", "; duplicates of one ack/nack in flight at once over HTTP", " Pull AP
 ext("C05", "; dispatcher retry delays per message", " Dispatcher part: every retry nack the dispatcher issues (batched settlements of micro-batches included) carries the delay its own message's attempt calls for.")
 ext("C10", "", " Reloads change the route table (a route drawn afresh with new match criteria, removed, added, moved) between requests.")
 ext("C12", "", " Forward-auth routes with copy_headers are part of the ingress profile: long copied values, also overriding a header the client sent, around max_headers.")
-ext("C15", "; endpoint-scoped publish", " Managed routes and the endpoint-scoped publish path are generated (selector hints, managed off, unknown endpoint); batches may hold two invalid items of different kinds: the error names the first offending item of the validation phase that failed (body shape over the whole batch, then item by item, then ids already queued).", "publish_policy global switches are not generated; the crash part drives EnqueueBatch directly (the call a publish makes), not the HTTP handler; input sampling through the real wiring")
+ext("C15", "; endpoint-scoped publish", " Managed routes and the endpoint-scoped publish path are generated (selector hints, managed off, unknown endpoint); batches may hold two invalid items of different kinds: the error names the first offending item of the validation phase that failed (body shape over the whole batch, then item by item, then ids already queued).", "publish_policy actor_allow / actor_prefix / fail_closed are not generated (direct, managed, allow_pull_routes, allow_deliver_routes, require_actor, require_request_id are); the crash part drives EnqueueBatch directly (the call a publish makes), not the HTTP handler; input sampling through the real wiring")
 ext("C18", "; traffic during a management mutation", " W-mgmt also lets a message arrive on the endpoint's current route after each statement of a management delete / move in turn: a refused call leaves file and running mapping untouched.")
 
 NA = {
